@@ -125,7 +125,11 @@ def first_bad(exp, got, ev):
 
 
 def gen_scalar(rng, kinds=None):
-    k = rng.choice(kinds or ["B", "S", "I", "J", "C", "Z", "str", "type", "field", "method", "enum", "null"])
+    k = rng.choice(kinds or ["B", "S", "I", "J", "C", "Z", "str", "type", "field", "method", "enum", "null", "mtype"])
+    if k == "mtype":
+        # DEX 039 method type constant (a proto index): its own value is outside the statement, the values stored BEHIND it are not
+        USED["mtype"] = True
+        return W.EV(W.V_METHOD_TYPE, W.Pro(rng.choice(["V", "I"]), rng.choice([(), ("I", "J")])), rng.choice([None, 2, 4]))
     if k in INT_TYPES:
         vt, bits = INT_TYPES[k]
         v = rng.choice(boundary_values(bits, rng))
@@ -146,6 +150,9 @@ def gen_scalar(rng, kinds=None):
     if k == "method":
         return W.EV(W.V_METHOD, W.Mth("Lp/V;", "mm", "V", ("I", "J")), rng.choice([None, 2, 4]))
     return W.EV(W.V_NULL)
+
+
+USED = {}
 
 
 def gen_value(rng, depth=0):
@@ -170,6 +177,7 @@ def shard(ctx, arg):
     rng = ctx.rng("c04", idx)
     for k in range(count):
         m = W.DexModel()
+        USED.clear()
         c = m.add_class("Lp/V;", source="V.java")
         c.add_field("fa", "I", 0)
         c.add_method("mm", "V", ("I", "J"), W.ACC_PUBLIC | W.ACC_NATIVE)
@@ -187,9 +195,20 @@ def shard(ctx, arg):
             evs = evs[:40]
         else:
             evs = [gen_scalar(rng, ["B", "S", "I", "J", "C", "Z", "str", "type", "null"]) for _ in range(rng.randrange(1, 12))]
+        # a DEX field is identified by name AND type: fields of one class may share their name (obfuscators: -overloadaggressively)
+        same_names = k % 7 == 3
+        used_nt = set()
         for i, ev in enumerate(evs):
-            f = c.add_field("f%d" % i, FIELD_TYPE_FOR[ev.vtype], W.ACC_STATIC | W.ACC_PUBLIC | W.ACC_FINAL, init=ev)
+            nm = "f%d" % i
+            if same_names and ("g%d" % (i % 2), FIELD_TYPE_FOR[ev.vtype]) not in used_nt:
+                nm = "g%d" % (i % 2)
+            used_nt.add((nm, FIELD_TYPE_FOR[ev.vtype]))
+            f = c.add_field(nm, FIELD_TYPE_FOR[ev.vtype], W.ACC_STATIC | W.ACC_PUBLIC | W.ACC_FINAL, init=ev)
             fields.append((f, ev))
+        bare = None
+        if same_names:
+            ctx.count("classes_with_same_named_fields")
+            bare = c.add_field("g0", "D", 0)   # an instance field without initial value that shares its name with initialised static fields
         # class annotations with every value type, nested arrays / annotations
         anns = []
         for a in range(rng.randrange(0, 3)):
@@ -213,6 +232,9 @@ def shard(ctx, arg):
                 pad.add_field("A%05d" % i, "I", W.ACC_STATIC | W.ACC_PUBLIC)
                 pad.add_method("A%05d" % i, "V", (), W.ACC_PUBLIC | W.ACC_NATIVE, None)
             ctx.count("big_index_cases")
+        if USED.get("mtype"):
+            m.version = b"039"
+            ctx.count("files_with_method_type_values")
         data, w = W.write_dex(m, want_writer=True)
         hexd = data.hex() if len(data) < 3000 else None
         ctx.ev()
@@ -224,10 +246,10 @@ def shard(ctx, arg):
         except Exception as e:
             ctx.violation("parse-raises", "DEX() raises on a well-formed file with encoded values", {"exc": exc_str(e), "dex": hexd})
             continue
-        byname = {f.get_name(): f for f in cls.get_fields()}
+        byname = {(f.get_name(), f.get_descriptor()): f for f in cls.get_fields()}
         for f, ev in fields:
             ctx.count("static_values_compared")
-            rf = byname.get(f.name)
+            rf = byname.get((f.name, f.type))
             iv = rf.get_init_value() if rf is not None else None
             if iv is None:
                 ctx.violation("static-value-missing", "a static field with an encoded initial value reports none", {"field": f.name, "type": f.type, "dex": hexd})
@@ -288,10 +310,14 @@ def shard(ctx, arg):
             ctx.violation("decompile-raises", "decompiling a class with static initial values raises", {"exc": exc_str(e), "dex": hexd})
             continue
         ctx.count("classes_decompiled")
+        if bare is not None and re.search(r"\bdouble g0 =", src):
+            ctx.violation("initialiser-on-a-field-without-initial-value", "a field without initial value is printed with the initialiser of a same-named field", {"source": src[:1500]})
+        JT = {"B": "byte", "S": "short", "I": "int", "J": "long", "C": "char", "Z": "boolean", "Ljava/lang/String;": "String", "Ljava/lang/Class;": "Class", "Ljava/lang/Object;": "Object"}
         for f, ev in fields:
+            decl = r"\b%s %s" % (JT[f.type], re.escape(f.name))
             if ev.vtype in (W.V_STRING, W.V_TYPE):
                 # a String constant is printed as a Java string literal denoting it; a Class constant is NOT a string literal
-                mm = re.search(r"\b%s = (.*);$" % re.escape(f.name), src, re.M)
+                mm = re.search(decl + r" = (.*);$", src, re.M)
                 ctx.count("initialisers_compared")
                 if not mm:
                     ctx.violation("initialiser-missing", "the decompiled class has no initialiser for a field with an initial value", {"field": f.name, "type": f.type, "source": src[:1500]})
@@ -311,7 +337,7 @@ def shard(ctx, arg):
                 continue
             if ev.vtype not in (W.V_BYTE, W.V_SHORT, W.V_INT, W.V_LONG, W.V_CHAR, W.V_BOOLEAN):
                 continue
-            mm = re.search(r"\b%s = ([^;\n]*);" % re.escape(f.name), src)
+            mm = re.search(decl + r" = ([^;\n]*);", src)
             ctx.count("initialisers_compared")
             if not mm:
                 ctx.violation("initialiser-missing", "the decompiled class has no initialiser for a field with an initial value", {"field": f.name, "type": f.type, "source": src[:1500]})
